@@ -289,7 +289,19 @@ def r4(ctx):
                 def is_site(e):
                     return isinstance(e, ast.Call) and isinstance(e.func, ast.Attribute) and e.func.attr == 'get' and src(e.func.value) in calldicts and len(e.args) == 2 \
                         and src(e.args[0]) == f'({rd}.reference_name, {tnames[1]})' and isinstance(e.args[1], ast.Dict) and not e.args[1].keys
-                ok = bool(pairs) and len(tnames) == 2 and only_none and context_lookup(cp.elt, is_site)
+                def guarded_lookup(e):
+                    # `D[key].get('context', '.') if key in D else '.'`  ==  `D.get(key, {}).get('context', '.')`
+                    if not isinstance(e, ast.IfExp) or len(tnames) != 2:
+                        return False
+                    key = f'({rd}.reference_name, {tnames[1]})'
+                    t_, yes, no = e.test, e.body, e.orelse
+                    if isinstance(t_, ast.Compare) and len(t_.ops) == 1 and isinstance(t_.ops[0], ast.NotIn):
+                        t_ = ast.Compare(left=t_.left, ops=[ast.In()], comparators=t_.comparators)
+                        yes, no = no, yes
+                    member = isinstance(t_, ast.Compare) and len(t_.ops) == 1 and isinstance(t_.ops[0], ast.In) and src(t_.left) == key and src(t_.comparators[0]) in calldicts
+                    direct = lambda v: isinstance(v, ast.Subscript) and src(v.value) in calldicts and src(v.slice).strip('()') == key.strip('()')
+                    return member and isinstance(no, ast.Constant) and no.value == '.' and context_lookup(yes, direct)
+                ok = bool(pairs) and len(tnames) == 2 and only_none and (context_lookup(cp.elt, is_site) or guarded_lookup(cp.elt))
     ctx.emit('C14-R4', ok, MOLECULE, anchor, 'call string: one symbol ("." when uncalled) per aligned pair of the read, looked up by (contig, reference position)', key='call-string')
 
 
